@@ -73,9 +73,140 @@ struct Sim {
     log_fd: i32,
     log_buf: String,
     frames: u64,
+    gpsd_next: usize,
+    gpsd_lost: bool,
 }
 
 static SIM: Mutex<Option<Sim>> = Mutex::new(None);
+
+// ------------------------------------------------------------------------------------------------
+// radar's gpsd thread. It is the only second thread of the clients, and the simulator decides
+// when it runs: the thread parks in every call it makes on its connection (connect, read), and is
+// released only at a main-loop iteration boundary (the poll that follows a draw), where the main
+// thread waits until the gpsd thread has parked again. So exactly one of the two threads runs at
+// any time, what the gpsd thread stores (the receiver position) is in place before the main loop
+// continues, and a run is a function of the scenario alone.
+
+#[derive(Clone, Copy, PartialEq, Debug)]
+enum GState {
+    NotStarted,
+    Running,
+    ParkedConnect,
+    ParkedRead,
+    Dead,
+}
+
+struct Gpsd {
+    state: GState,
+    /// the gpsd thread may proceed (set by the main thread, cleared by the gpsd thread)
+    go: bool,
+    connect_ok: bool,
+    inbox: Vec<u8>,
+}
+
+static GPSD: Mutex<Gpsd> = Mutex::new(Gpsd { state: GState::NotStarted, go: false, connect_ok: false, inbox: Vec::new() });
+static GPSD_CV: std::sync::Condvar = std::sync::Condvar::new();
+static MAIN_THREAD: Mutex<Option<std::thread::ThreadId>> = Mutex::new(None);
+
+fn on_main_thread() -> bool {
+    let g = MAIN_THREAD.lock().unwrap_or_else(|e| e.into_inner());
+    match *g {
+        Some(id) => id == std::thread::current().id(),
+        None => true,
+    }
+}
+
+/// gpsd thread: park in `kind`, wait to be released by the main thread
+fn gpsd_park(kind: GState) -> std::sync::MutexGuard<'static, Gpsd> {
+    let mut g = GPSD.lock().unwrap_or_else(|e| e.into_inner());
+    g.state = kind;
+    g.go = false;
+    GPSD_CV.notify_all();
+    while !g.go {
+        g = GPSD_CV.wait(g).unwrap_or_else(|e| e.into_inner());
+    }
+    g.go = false;
+    g.state = GState::Running;
+    g
+}
+
+impl Sim {
+    /// main thread, at an iteration boundary: let the gpsd thread take what is due and wait until
+    /// it is parked again
+    fn gpsd_handoff(&mut self) {
+        let Some(script) = self.sc.gpsd.clone() else { return };
+        if self.gpsd_lost || !self.sessions.iter().any(|s| s.reads > 0) {
+            // radar starts the thread after the first connection and before its first read
+            return;
+        }
+        let mut g = GPSD.lock().unwrap_or_else(|e| e.into_inner());
+        loop {
+            // wait (real time, bounded) for the thread to arrive at its next call
+            let mut waited = 0;
+            while matches!(g.state, GState::NotStarted | GState::Running) {
+                let (ng, to) = GPSD_CV.wait_timeout(g, Duration::from_millis(100)).unwrap_or_else(|e| e.into_inner());
+                g = ng;
+                if to.timed_out() {
+                    waited += 1;
+                    if waited > 100 {
+                        // no gpsd thread (radar run without --gpsd, or the thread died in a call of
+                        // its own): nothing to schedule any more
+                        self.gpsd_lost = true;
+                        drop(g);
+                        self.log("GPSD thread-lost");
+                        return;
+                    }
+                }
+            }
+            match g.state {
+                GState::ParkedConnect => {
+                    g.connect_ok = !script.refuse;
+                    g.go = true;
+                    GPSD_CV.notify_all();
+                    drop(g);
+                    self.log(if script.refuse { "GPSD connect refuse" } else { "GPSD connect accept" });
+                    g = GPSD.lock().unwrap_or_else(|e| e.into_inner());
+                    // (the thread cannot be ParkedConnect again: wait for its next state)
+                    while g.go {
+                        g = GPSD_CV.wait(g).unwrap_or_else(|e| e.into_inner());
+                    }
+                }
+                GState::ParkedRead => {
+                    let mut n = 0;
+                    let mut fix = None;
+                    while let Some(l) = script.lines.get(self.gpsd_next) {
+                        if l.at_us > self.now_us {
+                            break;
+                        }
+                        g.inbox.extend_from_slice(l.text.as_bytes());
+                        g.inbox.extend_from_slice(b"\r\n");
+                        if l.fix.is_some() {
+                            fix = l.fix;
+                        }
+                        self.gpsd_next += 1;
+                        n += 1;
+                    }
+                    if n == 0 {
+                        return;
+                    }
+                    g.go = true;
+                    GPSD_CV.notify_all();
+                    drop(g);
+                    match fix {
+                        Some((la, lo)) => self.log(&format!("GPSD lines={n} fix={la},{lo}")),
+                        None => self.log(&format!("GPSD lines={n}")),
+                    }
+                    g = GPSD.lock().unwrap_or_else(|e| e.into_inner());
+                    while g.go {
+                        g = GPSD_CV.wait(g).unwrap_or_else(|e| e.into_inner());
+                    }
+                }
+                GState::Dead => return,
+                GState::NotStarted | GState::Running => {}
+            }
+        }
+    }
+}
 
 extern "C" fn flush_at_exit() {
     let g = match SIM.try_lock() {
@@ -123,7 +254,10 @@ fn with_sim<T>(f: impl FnOnce(&mut Sim) -> T) -> T {
             log_fd,
             log_buf: String::with_capacity(16 * 1024),
             frames: 0,
+            gpsd_next: 0,
+            gpsd_lost: false,
         };
+        *MAIN_THREAD.lock().unwrap_or_else(|e| e.into_inner()) = Some(std::thread::current().id());
         // the log is buffered; whatever way the process ends normally (return from main, panic
         // -> exit 101, process::exit), the rest is written out
         unsafe {
@@ -204,6 +338,9 @@ pub mod net {
         id: usize,
     }
 
+    /// the connection of radar's gpsd thread
+    const GPSD_ID: usize = usize::MAX;
+
     fn do_connect(timeout: Option<Duration>) -> io::Result<TcpStream> {
         with_sim(|sim| {
             sim.step();
@@ -247,6 +384,17 @@ pub mod net {
 
     impl TcpStream {
         pub fn connect<A: ToSocketAddrs>(_addr: A) -> io::Result<TcpStream> {
+            if !super::on_main_thread() {
+                // radar's gpsd thread
+                let mut g = super::gpsd_park(super::GState::ParkedConnect);
+                return if g.connect_ok {
+                    Ok(TcpStream { id: GPSD_ID })
+                } else {
+                    g.state = super::GState::Dead;
+                    super::GPSD_CV.notify_all();
+                    Err(io::Error::new(io::ErrorKind::ConnectionRefused, "simulated: gpsd connection refused"))
+                };
+            }
             do_connect(None)
         }
 
@@ -255,6 +403,9 @@ pub mod net {
         }
 
         pub fn set_read_timeout(&self, dur: Option<Duration>) -> io::Result<()> {
+            if self.id == GPSD_ID {
+                return Ok(());
+            }
             with_sim(|sim| {
                 sim.sessions[self.id].read_timeout_us = dur.map(|d| d.as_micros() as u64);
                 Ok(())
@@ -262,6 +413,22 @@ pub mod net {
         }
 
         fn sim_read(&self, buf: &mut [u8]) -> io::Result<usize> {
+            if self.id == GPSD_ID {
+                if buf.is_empty() {
+                    return Ok(0);
+                }
+                let mut g = super::GPSD.lock().unwrap_or_else(|e| e.into_inner());
+                if g.inbox.is_empty() {
+                    drop(g);
+                    // nothing buffered: park until the main thread hands lines over (the daemon
+                    // never closes the connection)
+                    g = super::gpsd_park(super::GState::ParkedRead);
+                }
+                let n = g.inbox.len().min(buf.len());
+                buf[..n].copy_from_slice(&g.inbox[..n]);
+                g.inbox.drain(..n);
+                return Ok(n);
+            }
             with_sim(|sim| {
                 sim.step();
                     let sid = self.id;
@@ -503,6 +670,7 @@ pub mod event {
                 }
                 let total: u64 = sim.sessions.iter().map(|s| s.delivered).sum();
                 sim.log(&format!("FRAME {} total={}", sim.frames, total));
+                sim.gpsd_handoff();
                 // slow terminal / slow host: data piles up in the socket meanwhile
                 if !sim.sc.proc_delay_us.is_empty() {
                     let d = sim.sc.proc_delay_us[(sim.iter as usize) % sim.sc.proc_delay_us.len()];
@@ -542,6 +710,12 @@ pub mod event {
             };
             sim.next_event += 1;
             sim.advance_to(e.at_us);
+            if !sim.sc.ev_delay_us.is_empty() {
+                // handling the event takes the client some time
+                let d = sim.sc.ev_delay_us[(sim.next_event - 1) % sim.sc.ev_delay_us.len()];
+                let t = sim.now_us + d;
+                sim.advance_to(t);
+            }
             if let KEv::Resize { w, h } = &e.ev {
                 // the terminal really changes size, at a deterministic point
                 let ws = libc::winsize { ws_row: *h, ws_col: *w, ws_xpixel: 0, ws_ypixel: 0 };
